@@ -23,6 +23,9 @@ CLAIMS = {
  "C07": ("On the transcribed parser: for every token list the recovery step (skipToNextLine) stops right after the first Newline token and only drops a prefix, and the lexer makes progress on arbitrary damage. The containment statement is decided per run: journals from G with one entry damaged in eight ways (random bytes, truncation, deleted / duplicated / reordered lines, unbalanced quotes or brackets, stray operators, junk) are parsed by the real parser, and every other entry must keep its content and (shifted) line while syntax errors stay on the damaged lines; the parser model must equal the real parser on the damaged text (full AST).",
          "PARTIAL: the universal containment theorem is not proved; proved parts are the recovery lemmas and lexer progress. Trusted: transcription (full-AST tie), G generator in Go.",
          "Coq recovery lemmas on the transcribed parser + full-AST correspondence on damaged texts + containment oracle", "5 C07"),
+ "C09": ("references.go / definition.go / rename.go are modelled on ASTs; C09_references_exact proves for every set of consulted journals that the answer is exactly the symbol's occurrences (declarations when asked), attributed to the path each journal is filed under, and that sorting/de-duplication neither lose nor invent locations; with the requesting document as primary every file is consulted under its own path (partial). The full statement is refuted for requests from included files in workspace mode (known finding). Every run requests references (with/without declarations) and rename on every account, commodity and payee of generated multi-file workspaces, from root and included files, with and without root and unsaved edits, applies the rename edits and compares with the occurrence set of the scope.",
+         "Trusted: Coq kernel+VM; ASTs and the resolved journal are inputs (real parser/loader); rename application and expected texts are computed by the harness. Known findings: workspace_request_from_include, directive_range_end_unset, no_root_edit_truncates_tree.",
+         "Coq proof of exact reference sets on the AST model + occurrence-set and applied-rename oracle", "5 C09"),
  "C10": ("Include loader modelled at include-graph level (visited set, cache, both limits); the exact-cycle clause is refuted by three machine-checked witnesses (diamond, double include, count-based depth limit: recorded known findings); root-level verdicts proved for all file systems. Every run compares model, a stack-based reference traversal and the real loader on all 512 digraphs on 3 files plus random directories using every include form (relative, ./, absolute, ~/, dot-dot, glob).",
          "Trusted: Coq kernel+VM; graph-level abstraction (path and glob resolution run in the real code, results given to the model); termination/soundness of the traversal for all graphs is checked by the tie and oracle, not yet proved (ceiling).",
          "Coq refutation theorems + reference-traversal oracle + exhaustive small-graph correspondence", "5 C10"),
